@@ -262,6 +262,12 @@ func (e *Eval) dumper(offset int, opCode code.Opcode, opArg interface{}) (bool, 
 // of the constant-pool
 func (e *Eval) Dump() error {
 
+	// Nothing has been prepared - or the only attempt to do so has
+	// failed, the script being what it is: there is nothing to show.
+	if e.machine == nil {
+		return fmt.Errorf("the script has not been prepared")
+	}
+
 	fmt.Printf("Bytecode:\n")
 
 	// Use the walker to dump the bytecode.
